@@ -67,7 +67,7 @@ CHECKS += [
       technique="safety contract on the real C (z3) + run-time contract evaluation of the real orient / filter_pairs on a stated grid"),
  dict(id="C12", engine="cfront+csym", category="other", design_ref="DESIGN.md section 5 C12",
       text="proved for all inputs: add_pixel adds exactly the pixel's contribution to each of the accumulators, merge combines two accumulator rows and zeroes the "
-           "second; memory safety of blobproperties / compute_moments. Bounded: the real labelimage pipeline on every pair of binary 2x3 frames, every triple of "
+           "second; blobproperties: every sum accumulator of every label equals the sum over that label's pixels; memory safety of compute_moments. Bounded: the real labelimage pipeline on every pair of binary 2x3 frames, every triple of "
            "2x2 frames and random stacks vs a 3-D component oracle",
       note=PROOF_NOTE + "; python glue (mergelast / outputpeaks) and bloboverlaps only through the bounded stand-in; " + BOUNDED_NOTE,
       technique="function contracts on the real C (z3) + exhaustive small-stack comparison with an independent oracle"),
